@@ -6,7 +6,9 @@ import (
 	"fmt"
 	"math/rand"
 	"path/filepath"
+	"regexp"
 	"runtime"
+	"strconv"
 	"strings"
 	"sync"
 	"sync/atomic"
@@ -396,6 +398,20 @@ var strPayloads = []map[string]any{
 
 var stressStuck atomic.Int32
 
+// stTracer records one event per specification action of spec/DiagTrace.tla, in one total order (a mutex-protected
+// sequence, no wall clock): deliveries on the serial client path, the yield points of every background job, every
+// publication the client receives.
+type stTracer struct {
+	mu     sync.Mutex
+	events []map[string]any
+}
+
+func (t *stTracer) log(ev map[string]any) {
+	t.mu.Lock()
+	t.events = append(t.events, ev)
+	t.mu.Unlock()
+}
+
 func runStress(c strCase, dir string) (any, error) {
 	if stressStuck.Load() >= 3 {
 		// enough deadlocked servers are already parked in this process; the verdict does not need more of them
@@ -404,7 +420,8 @@ func runStress(c strCase, dir string) (any, error) {
 	ctx := context.Background()
 	names := map[string]string{"u1": "main.journal", "u2": "a.journal", "u3": "b.journal"}
 	text := func(u string, v int) string {
-		t := ccText(u, v)
+		// the first transaction is off by exactly v: a publication tells which version it was computed from
+		t := ccText(u, v) + fmt.Sprintf("\n2024-04-01 marker\n    equity:marker  %d XVER\n    equity:zero  0 XVER\n", v)
 		if u == "u1" {
 			t = "include a.journal\ninclude b.journal\n" + t
 		}
@@ -414,6 +431,8 @@ func runStress(c strCase, dir string) (any, error) {
 	for u, n := range names {
 		disk[n] = text(u, 1)
 	}
+	tr := &stTracer{}
+	uOf := map[string]string{}
 	if err := writeFiles(dir, disk); err != nil {
 		return nil, err
 	}
@@ -422,6 +441,15 @@ func runStress(c strCase, dir string) (any, error) {
 		root = dir
 	}
 	client := newStubClient()
+	client.onPub = func(p *protocol.PublishDiagnosticsParams) {
+		v := 0
+		for _, d := range p.Diagnostics {
+			if m := xverRe.FindStringSubmatch(d.Message); m != nil {
+				v, _ = strconv.Atoi(m[1])
+			}
+		}
+		tr.log(map[string]any{"e": "pub", "u": uOf[string(p.URI)], "v": v, "g": goid()})
+	}
 	rng := rand.New(rand.NewSource(c.Seed))
 	sess, err := newSessionWith(client, dir, root, nil, true)
 	if err != nil {
@@ -430,7 +458,12 @@ func runStress(c strCase, dir string) (any, error) {
 	uris := map[string]protocol.DocumentURI{}
 	for u, n := range names {
 		uris[u] = fileURI(filepath.Join(dir, n))
-		sess.watch(uris[u])
+		uOf[string(uris[u])] = u
+		uu := u
+		route(string(uris[u]), func(point, key string, gid int64) {
+			tr.log(map[string]any{"e": "hook", "p": strings.TrimPrefix(point, "pd."), "u": uu, "g": gid})
+			sess.ctl.hook(point, key, gid)
+		})
 	}
 	defer func() {
 		for _, u := range uris {
@@ -442,6 +475,7 @@ func runStress(c strCase, dir string) (any, error) {
 	for u := range names {
 		vers[u] = 1
 		open[u] = true
+		tr.log(map[string]any{"e": "deliver", "u": u, "v": 1})
 		_ = sess.srv.DidOpen(ctx, &protocol.DidOpenTextDocumentParams{TextDocument: protocol.TextDocumentItem{URI: uris[u], Version: 1, Text: text(u, 1)}})
 	}
 	var opIndex, nreqA atomic.Int32
@@ -455,6 +489,7 @@ func runStress(c strCase, dir string) (any, error) {
 			switch op.Op {
 			case "change":
 				vers[op.URI]++
+				tr.log(map[string]any{"e": "deliver", "u": op.URI, "v": vers[op.URI]})
 				ch := protocol.TextDocumentContentChangeEvent{Range: protocol.Range{End: protocol.Position{Line: 10000000}}, Text: text(op.URI, vers[op.URI])}
 				_ = sess.srv.DidChange(ctx, &protocol.DidChangeTextDocumentParams{
 					TextDocument:   protocol.VersionedTextDocumentIdentifier{TextDocumentIdentifier: protocol.TextDocumentIdentifier{URI: u}},
@@ -469,9 +504,11 @@ func runStress(c strCase, dir string) (any, error) {
 				_ = writeFiles(dir, map[string]string{names[op.URI]: text(op.URI, vers[op.URI])})
 				_ = sess.srv.DidSave(ctx, &protocol.DidSaveTextDocumentParams{TextDocument: protocol.TextDocumentIdentifier{URI: u}})
 			case "close":
+				tr.log(map[string]any{"e": "close", "u": op.URI})
 				_ = sess.srv.DidClose(ctx, &protocol.DidCloseTextDocumentParams{TextDocument: protocol.TextDocumentIdentifier{URI: u}})
 				open[op.URI] = false
 			case "open":
+				tr.log(map[string]any{"e": "open", "u": op.URI, "v": vers[op.URI]})
 				_ = sess.srv.DidOpen(ctx, &protocol.DidOpenTextDocumentParams{TextDocument: protocol.TextDocumentItem{URI: u, Version: 1, Text: text(op.URI, vers[op.URI])}})
 				open[op.URI] = true
 			case "request":
@@ -498,8 +535,17 @@ func runStress(c strCase, dir string) (any, error) {
 	if !waitUntil(60*time.Second, func() bool {
 		sess.ctl.mu.Lock()
 		defer sess.ctl.mu.Unlock()
-		for _, u := range uris {
-			if sess.ctl.done[string(u)] < sess.ctl.started[string(u)] {
+		tr.mu.Lock()
+		defer tr.mu.Unlock()
+		owed := map[string]int{}
+		for _, ev := range tr.events {
+			if ev["e"] == "deliver" || ev["e"] == "open" {
+				owed[ev["u"].(string)]++
+			}
+		}
+		for name, u := range uris {
+			// one background job per delivery: all of them must have started and ended
+			if sess.ctl.started[string(u)] < owed[name] || sess.ctl.done[string(u)] < sess.ctl.started[string(u)] {
 				return false
 			}
 		}
@@ -507,5 +553,13 @@ func runStress(c strCase, dir string) (any, error) {
 	}) {
 		stuck = "background jobs did not finish within 60 s after the stream ended"
 	}
-	return map[string]any{"id": c.ID, "requests": nreq, "stuck": stuck}, nil
+	if stuck == "" {
+		tr.log(map[string]any{"e": "quiesce"})
+	}
+	tr.mu.Lock()
+	events := tr.events
+	tr.mu.Unlock()
+	return map[string]any{"id": c.ID, "requests": nreq, "stuck": stuck, "trace": events}, nil
 }
+
+var xverRe = regexp.MustCompile(`XVER off by (\d+)`)
